@@ -21,9 +21,10 @@ from ECAgent.Collectors import AgentCollector, FileCollector
 
 INF = 'inf'
 WINDOWS = [(0, INF, 1), (1, 3, 2), (2, 2, 1)]
-COMPOSITES = ['absent', 'none', 'dict']
+COMPOSITES = ['absent', 'none', 'dict', 'shared']     # shared: one running-totals dict returned (and mutated) every time
 QUICK_CONFIGS = [('absent', False, 0, 'default'), ('none', False, 1, 'default'), ('dict', True, 2, 'plus5'),
-                 ('absent', True, 0, 'plus5'), ('dict', False, 0, 'default'), ('none', True, 1, 'plus5')]
+                 ('absent', True, 0, 'plus5'), ('dict', False, 0, 'default'), ('none', True, 1, 'plus5'),
+                 ('shared', False, 0, 'default'), ('shared', True, 1, 'plus5')]
 
 META = {
     'rule': 'agent: BFS over join/leave/step/step-with-mid-timestep-change histories per collector configuration; '
@@ -77,7 +78,7 @@ class AgentLeg:
         self.keys = list(keys)
         self.config = {'composite': composite, 'incl': incl, 'win': win_i, 'prio': prio, 'keys': self.keys}
         self.cn = Canon()
-        self._ops = [['step']]
+        self._ops = [['step'], ['swap']]
         for k in self.keys:
             self._ops += [['join', k], ['leave', k], ['step_with', 'join', k], ['step_with', 'leave', k]]
 
@@ -90,6 +91,7 @@ class AgentLeg:
             a.add_component(V(a, m, AGENT_VALUES[k]))
             w.agents[k] = a
         w.pending = []
+        w.swaps = 0
 
         class Mut(Core.System):
             def execute(self_):
@@ -100,8 +102,15 @@ class AgentLeg:
                         m.environment.remove_agent(k)
                 del w.pending[:]
 
+        totals = {}
+
+        def shared(agents):
+            totals['n'] = len(agents)
+            totals['calls'] = totals.get('calls', 0) + 1
+            return totals
+        w.calls = 0
         comp = {'absent': None, 'none': (lambda agents: None),
-                'dict': (lambda agents: {'n': len(agents)})}[self.composite]
+                'dict': (lambda agents: {'n': len(agents)}), 'shared': shared}[self.composite]
         start, end, freq = self.win
         kw = {'start': start, 'frequency': freq}
         if end != INF:
@@ -117,6 +126,14 @@ class AgentLeg:
         w.res = []
         w.t = 0
         w.ref = []
+        # a second model with an agent collector of the same id, stepped in lockstep: its records are its own
+        w.m2 = Core.Model(seed=2)
+        b = Core.Agent('z', w.m2)
+        b.add_component(V(b, w.m2, 99))
+        w.m2.environment.add_agent(b)
+        w.col2 = AgentCollector(w.m2, lambda a: a[V].value)
+        w.m2.systems.add_system(w.col2)
+        w.ref2 = []
         return w
 
     def ops(self, w):
@@ -130,6 +147,8 @@ class AgentLeg:
                 continue
             if op[0] in ('step', 'step_with') and w.t >= 5:
                 continue
+            if op[0] == 'swap' and (w.swaps >= 1 or w.res):      # only an empty environment is replaced
+                continue
             out.append(op)
         return out
 
@@ -142,11 +161,20 @@ class AgentLeg:
                 rec[k] = AGENT_VALUES[k]
         if self.composite == 'dict':
             rec['n'] = len(res)
+        if self.composite == 'shared':
+            w.calls += 1
+            rec['n'] = len(res)
+            rec['calls'] = w.calls
         return rec
 
     def apply(self, w, op):
         env = w.model.environment
-        if op[0] == 'join':
+        if op[0] == 'swap':
+            # the model gets a fresh, empty environment (after the collector was built): collections follow the model
+            w.model.environment = Core.Environment(w.model)
+            w.res = []
+            w.swaps += 1
+        elif op[0] == 'join':
             env.add_agent(w.agents[op[1]])
             w.res.append(op[1])
         elif op[0] == 'leave':
@@ -169,6 +197,12 @@ class AgentLeg:
             w.t += 1
             if w.pending:
                 raise Violation('the priority-0 system did not run in this timestep', observed=w.pending)
+        if op[0] in ('step', 'step_with'):
+            w.m2.execute()
+            w.ref2.append({'z': 99})
+        if w.col2.records != w.ref2:
+            raise Violation(f'{op}: a collector of another model (same collector id) holds foreign records',
+                            expected=w.ref2[-2:], observed=w.col2.records[-2:])
         got = w.col.records
         if got != w.ref:
             raise Violation(f'{op}: collector records differ (config {self.config})', expected=w.ref[-3:],
@@ -183,7 +217,7 @@ class AgentLeg:
         return self.cn(w.model, [w.agents[k] for k in self.keys], w.col, w.mut)
 
     def refstate(self, w):
-        return (tuple(w.res), w.t, repr(w.ref))
+        return (tuple(w.res), w.t, repr(w.ref), w.swaps)
 
     def outcome(self, w):
         return repr(w.ref[-2:])
@@ -269,6 +303,10 @@ def run(ctx):
     T, wcs = (5, range(4)) if quick else (7, range(6))
     cases = [{'leg': 'file', 'counts': list(c), 'write_count': wc, 'win': wi}
              for c in itertools.product((0, 1, 2), repeat=T) for wc in wcs for wi in range(len(WINDOWS))]
+    # large backlogs: many records per collection, flush sizes at and around powers of two
+    for per in (8, 16, 64, 63, 65):
+        for wc in (0, 1, 3, 7):
+            cases.append({'leg': 'file', 'counts': [per] * (2 * (wc + 1) + 1), 'write_count': wc, 'win': 0})
     size = max(1, len(cases) // (ctx.procs * 4))
     par.pmap(ctx, file_chunk, [cases[i:i + size] for i in range(0, len(cases), size)], procs=ctx.procs)
     ctx.leg('file', runs=len(cases), timesteps_each=T, crash_points=len(cases) * T)
